@@ -395,8 +395,8 @@ def decide_path(ob, path, claims, assume_f, replay_fn, dump=None):
         pv.detail = "claims are syntactically identical"
         return pv
     negz = neg.z3()
-    base = _base_constraints(ob, path, assume_f)
     monos = set(core.CTX.monos)
+    base = _base_constraints(ob, path, assume_f) + core.mono_facts(monos)
     s = _solver(ob.solver_timeout_ms)
     s.add(base)
     s.add(negz)
@@ -414,6 +414,36 @@ def decide_path(ob, path, claims, assume_f, replay_fn, dump=None):
     exact_needed = bool(monos) or any(d[1] is not None for d in path.defs)
     if r == "sat":
         candidates.append(("relaxed" if exact_needed else "exact", s.model()))
+        if exact_needed:
+            # cheap first: a model of the relaxation is very often a genuine counterexample; replay decides
+            try:
+                vals = _model_inputs(ob, s.model())
+                ok, label, detail = replay_fn(vals)
+                if ok:
+                    pv.status, pv.replay, pv.label = "violation", vals, label
+                    pv.detail = f"relaxed model reproduced: {detail}"
+                    return pv
+            except Exception:
+                pass
+            # a second relaxed attempt pulled inside the assumptions by a margin
+            for margin in (1e-3, 1e-6):
+                s4 = _solver(min(ob.solver_timeout_ms, 20000))
+                s4.add(core.bounds_constraints(margin))
+                s4.add([a.tighten(margin).z3() for a in assume_f])
+                s4.add([c.z3() for c in path.pc])
+                s4.add([d[0] for d in path.defs if d[0] is not None])
+                s4.add(negz)
+                if _check(s4, pv) == "sat":
+                    try:
+                        vals = _model_inputs(ob, s4.model())
+                        ok, label, detail = replay_fn(vals)
+                        if ok:
+                            pv.status, pv.replay, pv.label = "violation", vals, label
+                            pv.detail = f"relaxed model (margin {margin}) reproduced: {detail}"
+                            return pv
+                    except Exception:
+                        pass
+                    break
     if exact_needed:
         t_ = time.time()
         names = [n for n, _, _, _ in ob.inputs]
@@ -579,6 +609,9 @@ def run_obligation(ob, seed=0, tier="quick", collect_functions=True):
     t0 = time.time()
     core.reset_registry()
     core.CTX.__init__()
+    core.CTX.eager_ite = bool(getattr(ob, "eager_ite", False))
+    core.CTX.exact_branching = bool(getattr(ob, "exact_branching", False))
+    core.CTX.branch_timeout_ms = int(getattr(ob, "branch_timeout_ms", 2000))
     rng = random.Random(f"{seed}:{ob.ident()}")
     res = {"name": ob.name, "cfg": ob.cfg, "ident": ob.ident(), "status": None, "paths": 0, "queries": 0,
            "solver_s": 0.0, "symexec_s": 0.0, "violations": [], "inconclusive": [], "functions": [],
